@@ -281,6 +281,9 @@ def deductive(rep: Report, tier):
         st, _, _, _ = ncm.nc_equal_obligation(W.star @ W, NC.eye(n), ctx.hyps())
         rep.canary("C08.canary.unitary_without_orthonormal_solver", st == smt.REFUTED)
 
+    from .c09 import householder_vector_all_lengths, householder_matrix_entries_all_lengths
+    householder_vector_all_lengths(rep, P)
+    householder_matrix_entries_all_lengths(rep, P)
     householder_obligations(rep, P, (1, 2) if tier == "quick" else (1, 2, 3))
 
 
